@@ -45,7 +45,7 @@ FLOORS = {'*': {
     'request:accepted': 100, 'request:rejected': 1000, 'response:accepted': 100, 'response:rejected': 1000,
     'error:accepted': 50, 'error:rejected': 500, 'batch-request:accepted': 20, 'batch-request:rejected': 50,
     'batch-response:accepted': 20, 'batch-response:rejected': 50, 'batch:identity-error': 10,
-    'history:failed-op': 200, 'history:ops': 2000, 'nonobject': 20, 'ambient:batch-invariant': 1000,
+    'history:failed-op': 200, 'error:registered-code': 7, 'history:ops': 2000, 'nonobject': 20, 'ambient:batch-invariant': 1000,
 }}
 
 A = '__absent__'
@@ -54,7 +54,8 @@ GOOD_ERR = {'code': 5, 'message': 'm'}
 ERR_SHAPES = [A, None, 0, 'x', [], {}, GOOD_ERR, {'code': 5, 'message': 'm', 'data': None}, {'code': 0, 'message': 'm'},
               {'code': 5, 'message': ''}, {'code': True, 'message': 'm'}, {'code': 1.0, 'message': 'm'}, {'code': '5', 'message': 'm'},
               {'message': 'm'}, {'code': 5}, {'code': 5, 'message': None}, {'code': -32601, 'message': 'Method not found', 'data': []},
-              {'code': 0, 'message': ''}]
+              {'code': 0, 'message': ''}, {'code': -32601}, {'code': -32000, 'data': 1}, {'code': -32700, 'message': None},
+              {'code': 76001}]
 
 
 def setup(ctx):
@@ -187,8 +188,20 @@ def run_request_block(ctx, jsonrpc_i):
     ctx.exhaustive['request-product-16^4'] = True
 
 
+# codes for which the library knows a class with a class-level message (and one the harness registers): whatever the
+# class provides, the wire object needs its own message member
+class C6Typed(JsonRpcError):
+    code = 76001
+    message = 'c6 typed'
+
+
+REGISTERED_CODES = [-32700, -32600, -32601, -32602, -32603, -32000, 76001]
+
+
 def run_error_block(ctx, code_i):
-    c = ALPHA[code_i]
+    c = ALPHA[code_i] if code_i < len(ALPHA) else REGISTERED_CODES[code_i - len(ALPHA)]
+    if code_i >= len(ALPHA):
+        ctx.hit('error:registered-code')
     for m, d in itertools.product(ALPHA, ALPHA):
         obj = build(code=c, message=m, data=d)
         status, out = call(JsonRpcError.from_json, obj)
@@ -205,7 +218,7 @@ def run_response_block(ctx, jsonrpc_i):
         obj = build(jsonrpc=j, id=i, result=r, error=e)
         status, out = call(v20.Response.from_json, obj)
         judge(ctx, 'response', obj, response_invalid(obj), status, out)
-    ctx.exhaustive['response-product-16^3x18'] = True
+    ctx.exhaustive['response-product-16^3x22'] = True
 
 
 NONOBJECTS = [None, True, False, 0, 1, 1.5, '', 'x', [], [1], [{}], [[]], 'null', 10 ** 30]
@@ -392,6 +405,8 @@ def gen(ctx):
     for k in range(len(ALPHA)):
         yield 'request_block', {'jsonrpc_i': k}
         yield 'error_block', {'code_i': k}
+    for k in range(len(REGISTERED_CODES)):
+        yield 'error_block', {'code_i': len(ALPHA) + k}
         yield 'response_block', {'jsonrpc_i': k}
     yield 'nonobjects', {}
     yield 'batch_level', {}
